@@ -56,6 +56,20 @@ def isNan : ExtRat → Bool
   | nan => true
   | _ => false
 
+/-- Python `-x` -/
+def neg : ExtRat → ExtRat
+  | nan => nan | ninf => pinf | pinf => ninf | fin q => fin (-q)
+
+/-- `x * 2` on a Python float: exact unless it overflows to an infinity -/
+def doubleFloat : ExtRat → ExtRat
+  | fin q => if (2 : Rat) ^ 1024 ≤ 2 * q then pinf else if 2 * q ≤ -((2 : Rat) ^ 1024) then ninf else fin (2 * q)
+  | e => e
+
+/-- `x * 2` on a Python int -/
+def doubleExact : ExtRat → ExtRat
+  | fin q => fin (2 * q)
+  | e => e
+
 end ExtRat
 
 inductive NumKind where
